@@ -73,6 +73,49 @@ pub struct C05Trace {
     pub msg: Msg,
     /// None = every framing x storage x capacity 0..=L+2; Some = that single case
     pub focus: Option<Focus>,
+    /// additionally measure a value of `blocks` byte strings of `block_len` bytes plus one of
+    /// `last_len` bytes (all borrowing one shared block, so gigabytes cost nothing) with the size
+    /// counter; the expected length is arithmetic
+    #[serde(default)]
+    pub huge: Option<Huge>,
+}
+
+#[derive(Clone, Debug, Serialize, Deserialize)]
+pub struct Huge {
+    pub blocks: usize,
+    pub block_len: usize,
+    pub last_len: usize,
+}
+
+static BLOCK: [u8; 1 << 20] = [0x5A; 1 << 20];
+
+/// A tuple of byte strings that all borrow the same block.
+struct Blocks<'a>(&'a Huge);
+struct BytesOf<'a>(&'a [u8]);
+impl Serialize for BytesOf<'_> {
+    fn serialize<S: serde::Serializer>(&self, s: S) -> Result<S::Ok, S::Error> {
+        s.serialize_bytes(self.0)
+    }
+}
+impl Serialize for Blocks<'_> {
+    fn serialize<S: serde::Serializer>(&self, s: S) -> Result<S::Ok, S::Error> {
+        use serde::ser::SerializeTuple;
+        let h = self.0;
+        let mut t = s.serialize_tuple(h.blocks + 1)?;
+        for _ in 0..h.blocks {
+            t.serialize_element(&BytesOf(&BLOCK[..h.block_len.min(BLOCK.len())]))?;
+        }
+        t.serialize_element(&BytesOf(&BLOCK[..h.last_len.min(BLOCK.len())]))?;
+        t.end()
+    }
+}
+fn varint_len(mut v: usize) -> usize {
+    let mut n = 1;
+    while v >= 0x80 {
+        v >>= 7;
+        n += 1;
+    }
+    n
 }
 
 type PcResult<T> = Result<T, postcard::Error>;
@@ -197,7 +240,9 @@ mod p {
     pub const DISPLAY_COLLECTSTR_ERR: usize = 13;
     pub const SLACK_UNTOUCHED: usize = 14;
     pub const COBS_RUN_EXACTLY_254: usize = 15;
-    pub const NAMES: [&str; 16] = [
+    pub const HUGE_SIZE: usize = 16;
+    pub const HUGE_SIZE_OVER_4G: usize = 17;
+    pub const NAMES: [&str; 18] = [
         "failure_on_the_very_last_byte",
         "capacity_zero",
         "cobs_sentinel_push_fails_in_finalize",
@@ -214,6 +259,8 @@ mod p {
         "collect_str_value_reported_CollectStrError",
         "success_with_slack_and_slack_untouched",
         "longest_non_zero_run_of_plain_encoding_is_exactly_254",
+        "size_counter_on_a_multi_megabyte_value",
+        "size_counter_on_a_value_longer_than_4_GiB",
     ];
 }
 
@@ -271,6 +318,36 @@ fn exec_c05(t: &C05Trace, out: &mut Outcome<C05Trace>) {
         }};
     }
     out.extra[X_VALUES] += 1;
+    if let Some(h) = &t.huge {
+        let bl = h.block_len.min(BLOCK.len());
+        let ll = h.last_len.min(BLOCK.len());
+        let expect = h.blocks as u128 * (varint_len(bl) + bl) as u128 + (varint_len(ll) + ll) as u128;
+        let r = sut::call(|| postcard::experimental::serialized_size(&Blocks(h)));
+        out.evals += 1;
+        out.probe(p::HUGE_SIZE);
+        if expect > u32::MAX as u128 {
+            out.probe(p::HUGE_SIZE_OVER_4G);
+        }
+        let ok = matches!(&r, Ok(Ok(n)) if *n as u128 == expect);
+        if !ok {
+            let mut n = t.clone();
+            n.focus = Some(Focus { framing: Framing::Plain, storage: Storage::SliceEndGuard, cap: usize::MAX });
+            out.fail(
+                "C05",
+                "size-counter",
+                "Size size-counter".into(),
+                format!(
+                    "serialized_size of {} byte strings of {} bytes plus one of {} bytes reported {:?}; the output length is {}",
+                    h.blocks, bl, ll, r, expect
+                ),
+                Some(n),
+            );
+            return;
+        }
+    }
+    if matches!(&t.focus, Some(f) if f.cap == usize::MAX) {
+        return;
+    }
     // plain length for the size counter
     let plain = match unbounded(m, Framing::Plain) {
         Ok(Ok(u)) => u,
@@ -688,17 +765,42 @@ impl Scenario for C05 {
         } else {
             Msg::gen_fitting(rng, &cfg, budget)
         };
-        C05Trace { msg, focus: None }
+        // now and then: the size counter on a value of several gigabytes (around 2^31, 2^32, 2^33)
+        let huge = if rng.chance(1, 400) && !crate::runner::small() {
+            let target: u128 = match rng.below(6) {
+                0 => 1u128 << 31,
+                1 | 2 | 3 => 1u128 << 32,
+                4 => 1u128 << 33,
+                _ => 3u128 << 30,
+            };
+            let block_len = *rng.pick(&[1usize << 20, (1 << 20) - 1, 65536, 1000003 % (1 << 20)]);
+            let per = (varint_len(block_len) + block_len) as u128;
+            let blocks = (target / per) as usize + rng.range(0, 2);
+            Some(Huge { blocks, block_len, last_len: rng.range(0, 300) })
+        } else {
+            None
+        };
+        C05Trace { msg, focus: None, huge }
     }
     fn exec(t: &C05Trace, out: &mut Outcome<C05Trace>) {
         exec_c05(t, out)
     }
     fn shrink(t: &C05Trace) -> Vec<C05Trace> {
         let mut v = Vec::new();
+        if let Some(h) = &t.huge {
+            v.push(C05Trace { huge: None, ..t.clone() });
+            if h.last_len > 0 {
+                v.push(C05Trace { huge: Some(Huge { last_len: 0, ..h.clone() }), ..t.clone() });
+            }
+            if h.blocks > 1 {
+                v.push(C05Trace { huge: Some(Huge { blocks: h.blocks - 1, ..h.clone() }), ..t.clone() });
+                v.push(C05Trace { huge: Some(Huge { blocks: h.blocks / 2, ..h.clone() }), ..t.clone() });
+            }
+        }
         for m in shape::shrink_msg(&t.msg) {
             // a shrunk message has another output length: re-enumerate capacities for the same
             // framing/storage by dropping the capacity focus but keeping framing/storage
-            v.push(C05Trace { msg: m, focus: None });
+            v.push(C05Trace { msg: m, focus: None, huge: t.huge.clone() });
         }
         v
     }
@@ -712,7 +814,7 @@ impl Scenario for C05 {
             1 => Storage::SliceStartGuard,
             _ => return None,
         };
-        Some(C05Trace { msg: t.msg.clone(), focus: Some(Focus { framing, storage, cap: ctx[3] as usize }) })
+        Some(C05Trace { msg: t.msg.clone(), focus: Some(Focus { framing, storage, cap: ctx[3] as usize }), huge: None })
     }
     fn rule() -> &'static str {
         "one case = one value (dynamic shape over the whole serde data model, boundary-biased) x one framing (plain, COBS, CRC-8/16/32/64/128, CRC-32 over COBS) with the fault 'sink runs out at byte c' enumerated completely: every slice capacity c in 0..=L+2 at both guard placements, every instantiated heapless capacity <= L+2 and the next one above; plus size counter, Vec, VecDeque, recording Extend sink. distinct_nontrivial counts distinct (set of kinds in the shape, output length L, framing) with L >= 2, so that at least one capacity fails after a partial write."
